@@ -51,11 +51,14 @@ CONFIGS = {
     'C03': {
         'quick': [('reorg', cfg(Active='{1}', MaxPerBlock=1, MaxForks=1, MaxForced=1, MaxRestarts=1, FlushKinds='{"none", "full"}')),
                   ('reorg2', cfg(Active='{1, 2}', MaxPerBlock=2, MaxForks=1, MaxRestarts=1, FlushKinds='{"none"}')),
-                  ('reorgmulti', cfg(Active='{11}', MaxPerBlock=1, MaxForks=1, MaxRestarts=1, FlushKinds='{"none", "full"}'))],
+                  ('reorgmulti', cfg(Active='{11}', MaxPerBlock=1, MaxForks=1, MaxRestarts=1, FlushKinds='{"none", "full"}')),
+                  # outputs whose spendability depends on the activation height, orphaned at / around that height
+                  ('reorgopret', cfg(Active='{9}', MaxPerBlock=1, MaxForks=1, MaxForced=1, FlushKinds='{"none"}'))],
         'thorough': [('reorg', cfg(Active='{1, 2}', MaxBlocks=4, MaxPerBlock=1, MaxForks=1, MaxForced=1, MaxRestarts=1,
                                    FlushKinds='{"none", "full"}')),
                      ('reorgmulti', cfg(Active='{9, 11, 12}', MaxBlocks=4, MaxPerBlock=2, MaxForks=1, MaxRestarts=1,
-                                        FlushKinds='{"none", "full"}'))],
+                                        FlushKinds='{"none", "full"}')),
+                     ('reorgopret', cfg(Active='{9, 10}', MaxBlocks=4, MaxPerBlock=1, MaxForks=1, MaxForced=1, FlushKinds='{"none", "full"}'))],
     },
     'C04': {
         'quick': [('crash', cfg(Active='{1, 2}', MaxBlocks=2, MaxCrashes=1))],
@@ -71,7 +74,10 @@ CONFIGS = {
         'quick': [('undo1', cfg(Active='{}', MaxBlocks=3, MaxPerBlock=0, MaxForks=1, MaxForced=1, MaxRestarts=1, ReorgLimit=1,
                                 FlushKinds='{"none"}')),
                   ('undo2', cfg(Active='{1}', MaxBlocks=3, MaxPerBlock=1, MaxForks=1, MaxForced=1, MaxRestarts=1, ReorgLimit=2,
-                                FlushKinds='{"none", "full"}', MaxCrashes=1))],
+                                FlushKinds='{"none", "full"}', MaxCrashes=1)),
+                  # history-only flushes between the blocks of the window (they must leave the pending undo records alone)
+                  ('undo3', cfg(Active='{1}', MaxBlocks=3, MaxPerBlock=1, MaxForks=0, MaxForced=1, MaxRestarts=0, ReorgLimit=2,
+                                FlushKinds='{"none", "hist", "full"}'))],
         'thorough': [('undo3', cfg(Active='{1}', MaxBlocks=5, MaxPerBlock=1, MaxForks=1, MaxForced=1, MaxRestarts=1, ReorgLimit=3,
                                    FlushKinds='{"none"}'))],
     },
@@ -166,18 +172,34 @@ def scenarios_from(sc, name, c, quick, seed, rng, out):
     c0 = dict(c)
     c0['MaxCrashes'] = 0          # crash points are enumerated on the real code by ordinal
     sc.write(f'X_{name}.cfg', cfg_text(c0, export=True, invariants=False))
-    scns = {}
     res = run_tlc(sc, 'Index', f'X_{name}.cfg', simulate=f'num={400 if quick else 4000}', depth=90 if quick else 140,
                   seed=seed or 7, workers=8, timeout=900)
-    for evs in res.printed('SCN'):
-        scns[json.dumps(evs, sort_keys=True)] = evs
-    # keep maximal histories only (a prefix is covered by its extension)
-    prefixes = set()
-    for evs in scns.values():
-        for n in range(len(evs)):
-            if evs[n]['e'] == 'caughtup':
-                prefixes.add(json.dumps(evs[:n], sort_keys=True))
-    kept = [evs for k, evs in scns.items() if k not in prefixes]
+    # keep maximal histories only (a history printed at one catch-up is a prefix of the one printed at the next).  The
+    # output of a thorough run is hundreds of megabytes: two streaming passes over it with chained hashes, nothing kept
+    # but the hashes of the complete histories and, in the end, the maximal histories themselves.
+
+    def chain(evs):
+        h, out_ = 0, []
+        for e in evs:
+            out_.append(h)                 # hash of the history before this event
+            h = hash((h, json.dumps(e, sort_keys=True)))
+        return out_, h
+    full = set()
+    for evs in res.iter_printed('SCN'):
+        full.add(chain(evs)[1])
+    nonmax = set()
+    for evs in res.iter_printed('SCN'):
+        before, _h = chain(evs)
+        for n, e in enumerate(evs):
+            if e['e'] == 'caughtup' and before[n] in full:
+                nonmax.add(before[n])
+    kept, seen_ = [], set()
+    for evs in res.iter_printed('SCN'):
+        h = chain(evs)[1]
+        if h not in nonmax and h not in seen_:
+            seen_.add(h)
+            kept.append(evs)
+    res.out = res.out[-3000:]
     if len(kept) < 5:
         raise MachineryError(f'{name}: only {len(kept)} scenarios exported:\n{res.out[-1500:]}')
     return kept
@@ -186,6 +208,10 @@ def scenarios_from(sc, name, c, quick, seed, rng, out):
 def interesting(evs):
     kinds = [e['e'] for e in evs]
     return (kinds.count('fork') + kinds.count('switch') + kinds.count('force'), kinds.count('mine'), len(evs))
+
+
+TLC_BUDGET = int(os.environ.get('VERIF_TLC_BUDGET_S', '900'))     # thorough tier: breadth-first budget per configuration
+SCAL_FIELDS = ('memh', 'txc', 'uc', 'nc', 'nd', 'nu', 'npu', 'hfc', 'dbh', 'fsh')
 
 
 def hist_run(evs):
@@ -211,9 +237,19 @@ def check(pid, tier, seed):
             # 1. design level
             sc.write(f'M_{name}.cfg', cfg_text(c))
             t0 = time.time()
-            res = model_check(sc, 'Index', f'M_{name}.cfg', timeout=3400)
+            # (thorough: breadth-first within a time budget; a configuration that is not exhausted is reported as such)
+            res = model_check(sc, 'Index', f'M_{name}.cfg', timeout=3400 if quick else TLC_BUDGET, soft=not quick)
             if res.violated:
                 out.notes.append(f'TLC: Index.tla violates {res.violated} in {name}; verdict is taken from the replays')
+            elif res.timed_out:
+                out.notes.append(f'Index.tla {name}: NOT exhausted within {TLC_BUDGET} s ({res.distinct} distinct states, breadth-first, no violation)')
+                out.coverage['exhaustive'] = False
+                # ... and random walks far beyond the breadth-first frontier, with the same invariants
+                sim = run_tlc(sc, 'Index', f'M_{name}.cfg', simulate='num=100000', depth=160, seed=seed or 11, workers=12,
+                              timeout=400, soft=True)
+                if sim.violated:
+                    out.notes.append(f'TLC (simulation): Index.tla violates {sim.violated} in {name}; verdict is taken from the replays')
+                out.notes.append(f'Index.tla {name}: simulation depth 160 for up to 400 s on top')
             elif not res.no_error:
                 raise MachineryError(f'TLC did not finish {name}:\n{res.out[-1500:]}')
             out.add(states=res.distinct, transitions=res.generated)
@@ -232,7 +268,7 @@ def check(pid, tier, seed):
         # 3. real executions (crash points are enumerated after a dry run)
         with ProcessPoolExecutor(max_workers=14) as ex:
             traces = list(ex.map(_run, jobs, chunksize=2))
-            if pid in ('C04', 'C05'):
+            if pid in ('C04', 'C05', 'C15'):
                 crash_jobs = []
                 base = [t for t in traces if 'error' not in t]
                 base.sort(key=lambda t: -t['ops'])
@@ -244,12 +280,17 @@ def check(pid, tier, seed):
                     chosen = base[:n // 2]
                     chosen += [t for t in byrun if t not in chosen][:n - len(chosen)]
                     out.add(max_hist_run=max(hist_run(t['job']['events']) for t in chosen))
+                elif pid == 'C15':
+                    # the window must also be there after a crash inside a flush: every LevelDB commit of a few long runs
+                    chosen = base[:(4 if quick else 30)]
                 else:
                     chosen = [t for t in base if any(s.get('ev') == 'backedup' for s in t['steps'])][:6 if quick else 60]
                 for t in chosen:
                     j = t['job']
                     for k in range(1, t['ops'] + 1):
                         kind = t['oplog'][k - 1][0]
+                        if pid == 'C15' and kind == 'file':
+                            continue
                         in_backup_window = True
                         conts = [None, 'back'] if pid == 'C05' else [None]
                         for cont in conts:
@@ -299,6 +340,38 @@ def check(pid, tier, seed):
                 out.violation(f"{f['clause']} fails at recorded step {f['l']} {brief} "
                               f"(crash_at={t['job']['crash_at']} torn={t['job']['torn']} cont={t['job']['cont']})",
                               {'kind': 'index', 'job': t['job'], 'clause': f['clause'], 'step': f['l']})
+        # implementation-level conformance on scalars (drift only): runs without an injected crash, matched in order per kind
+        pairs = []
+        for t in traces:
+            if 'error' in t or t['job']['crash_at'] is not None or t.get('died'):
+                continue
+            # matched by (number of scenario polls consumed, kind, ordinal within that poll)
+            exp, np_ = {}, 0
+            for e in t['job']['events']:
+                if e['e'] in ('fork', 'switch', 'force', 'reopen', 'crash'):
+                    # from the first change of the daemon's mind on, the real prefetcher and the model's poll need not see
+                    # the same daemon at the same instant: the replay is a behaviour of the model, but not this one
+                    break
+                if e['e'] == 'poll':
+                    np_ += 1
+                elif 'st' in e:
+                    exp.setdefault((np_, e['e']), []).append(e['st'])
+            got = {}
+            for x in t.get('scal', []):
+                got.setdefault((x['p'], x['k']), []).append(x['got'])
+            for key in sorted(exp):
+                for k, (a, b) in enumerate(zip(exp[key], got.get(key, []))):
+                    pairs.append({'kind': f'{key[1]} (poll {key[0]})', 'k': k, 'exp': list(a), 'got': [b[f] for f in SCAL_FIELDS], 'tid0': traces.index(t)})
+        if pairs:
+            uniq = list({json.dumps([p_['exp'], p_['got']], sort_keys=True): p_ for p_ in pairs}.values())
+            res2, drift = validate_traces(sc, 'IndexScalTrace', 'IndexScalTrace.cfg', [{'exp': p_['exp'], 'got': p_['got']} for p_ in uniq],
+                                          workers=8, timeout=1200, name='scal.json')
+            out.add(impl_scalar_observations=len(pairs), impl_scalar_distinct=len(uniq), impl_scalar_drift=len(drift))
+            for d in drift[:3]:
+                p_ = uniq[d['tid'] - 1]
+                diff = {f: (a, b) for f, a, b in zip(SCAL_FIELDS, p_['exp'], p_['got']) if a != b}
+                out.drift.append(f"Index.tla and the real block processor disagree after {p_['kind']} #{p_['k']} (model, code): {diff} "
+                                 f"in scenario {[e['e'] for e in traces[p_['tid0']]['job']['events']][:40]}")
         if other:
             out.notes.append(f'clauses of other properties failed on these runs (reported by their own checks): {other}')
         for t in traces[:2] + traces[-1:]:
